@@ -497,7 +497,7 @@ func violationReproduced(ev []replayEvent, v sym.Violation) (bool, string) {
 	return false, strings.Join(all, "; ")
 }
 
-var harnessFnRE = regexp.MustCompile(`(?m)^func (ZZ\w+)\(\)`)
+var harnessFnRE = regexp.MustCompile(`(?m)^func (ZZC\d+_\w+)\(\)`)
 
 // materialise writes the overlay files for native replay of one package's
 // harnesses: the same overlay the symbolic run used (harness files, runtime,
